@@ -111,7 +111,27 @@ func runMux(id int, c *muxCase, via string, short string) muxLine {
 		case <-time.After(5 * time.Second):
 		}
 		mc.WaitReaderBlocked(2 * time.Second)
-		mc.Close()
+		// reports are counted before the test closes the transport (closing it makes the
+		// serve loop report its own read error)
+		select {
+		case <-mux.ErrorReports():
+			l.Reports++
+		default:
+		}
+		defer func() {
+			mc.Close()
+			select {
+			case <-mux.ErrorReports():
+			case <-time.After(2 * time.Millisecond):
+			}
+		}()
+		mu.Lock()
+		l.Fired = append([]int(nil), l.Fired...)
+		if l.Fired == nil {
+			l.Fired = []int{}
+		}
+		mu.Unlock()
+		return l
 	}
 	for {
 		select {
